@@ -328,7 +328,7 @@ def _counter_vars(body):
     return out
 
 
-@rule("PAYLOAD-REPR", ["C01", "C14"], "whether a variant's payload is wrapped in a struct is decided by the declared number of fields at every site: constructor, pattern comparison, pattern binding and host bindings agree")
+@rule("PAYLOAD-REPR", ["C01", "C14", "C12"], "whether a variant's payload is wrapped in a struct is decided by the declared number of fields at every site: constructor, pattern comparison, pattern binding and host bindings agree")
 def payload_repr(ctx, r):
     items = ctx.file_items(TB)
     if items is None:
@@ -394,6 +394,24 @@ def payload_repr(ctx, r):
             r.ob(bool(tests) and not bad, f"translate_bytecode.rs:{name}:Variant:{form}:void-test-subject", TB, a["l"],
                  f"{name}, {form} payload: the placeholder of a void payload must be recognised by the payload's own type; the tests here look at {[t[1] for t in tests] or 'nothing'} (`{patparam}` is the variant pattern: its type is the enum, never void), so a void payload's placeholder is left on the stack under the arm's value",
                  sample=f"{name}: {form} payload voidness from {[t[1] for t in tests]}")
+    # the exhaustiveness pass: a void payload has no column, in either payload form
+    ex_items = ctx.file_items(EXH)
+    fa = None
+    for ff, _ in q.iter_items(ex_items or []):
+        if ff["k"] == "Fn" and ff["name"] == "from_ast_pat" and ff.get("body") is not None:
+            fa = ff
+    if fa is None:
+        r.missing("pat_exhaustiveness.rs:from_ast_pat", EXH)
+    else:
+        for a in q.walk(fa["body"]):
+            if a["k"] == "Arm":
+                forms = [q.last_seg(p["p"]) for p in q.walk(a["pat"]) if p["k"] == "PTupleStruct" and "PatVariantData" in p["p"]]
+                for form in forms:
+                    n += 1
+                    aware = any(y["k"] in ("Path", "PPath") and y.get("p") == "Type::Void" for y in q.walk(a["body"])) or "Type::Void" in q.show(a["body"])
+                    r.ob(aware, f"pat_exhaustiveness.rs:from_ast_pat:Variant:{form}:void-payload-becomes-a-column", EXH, a["l"],
+                         f"from_ast_pat, {form} payload: the column types give a variant with a void payload no column, so its sub-pattern must not become a field: otherwise every later column of the row is shifted by one and a non-exhaustive match over a tuple is accepted",
+                         sample=f"from_ast_pat: {form} payload drops a void sub-pattern")
     bc = ctx.file_items("abra_core/src/bindings_common.rs")
     g = q.find_fn(bc, "name_of_variant_data_ty") if bc else None
     if g is None:
@@ -402,7 +420,7 @@ def payload_repr(ctx, r):
         n += 1
         ok = any(i["k"] == "If" and q.show(i["c"]).replace(" ", "").strip("()") in ("elems.len()==1",) for i in q.walk(g["body"]))
         r.ob(ok, "bindings_common.rs:name_of_variant_data_ty:unwrapped-case", "abra_core/src/bindings_common.rs", g["l"], "host bindings must use the bare payload type exactly for one declared field", sample="host bindings: bare payload iff elems.len() == 1")
-    r.count("payload representation decision sites", n, 8, TB)
+    r.count("payload representation decision sites", n, 10, TB)
 
 
 PLACEHOLDER_PRODUCERS = ("GetIndex", "DeconstructVariant", "ArrayPop")
@@ -485,3 +503,103 @@ def witness_stack(ctx, r):
                              sample=f"{f['name']}: fields taken from the end of the row ({q.show(x['args'][0]) if x['args'] else x['m']})")
     r.count("witness-row insertions", n_ins, 2, EXH)
     r.count("witness-row removals", n_rm, 1, EXH)
+
+
+@rule("GENERIC-INST", ["C12", "C13", "C04", "C01"], "a column type taken from a declaration's field is instantiated with the type arguments of the column before the exhaustiveness pass uses it")
+def generic_inst(ctx, r):
+    items = ctx.file_items(EXH)
+    if items is None:
+        r.missing(EXH)
+        return
+    n = 0
+    for f, _ in q.iter_items(items):
+        if f["k"] != "Fn" or f.get("body") is None:
+            continue
+        for x in q.walk(f["body"]):
+            if not (x["k"] == "MethodCall" and x["m"] == "to_solved_type" and x["recv"]["k"] == "Field" and x["recv"]["f"] == "ty"):
+                continue
+            n += 1
+            ok = False
+            for c in q.walk(f["body"]):
+                if c["k"] == "Call" and q.show(c["f"]).endswith("subst_solved_ty") and any(y is x for a in c["args"] for y in q.walk(a)):
+                    ok = True
+            if not ok:
+                # bound to a local that is then substituted
+                for l in q.walk(f["body"]):
+                    if l["k"] == "Local" and l.get("init") is not None and any(y is x for y in q.walk(l["init"])):
+                        vs = set(q.pat_bindings(l["pat"]))
+                        for c in q.walk(f["body"]):
+                            if c["k"] == "Call" and q.show(c["f"]).endswith("subst_solved_ty") and any(q.idents_in(a) & vs for a in c["args"]):
+                                ok = True
+            r.ob(ok, f"pat_exhaustiveness.rs:{f['name']}:{q.show(x['recv'])}:declared-type-not-instantiated", EXH, x["l"],
+                 f"{f['name']}: `{q.show(x)[:70]}` is the field's type as declared; for a generic struct or enum it still contains the declaration's type variables, so the column is treated as an unlistable type: exhaustive matches over `option<bool>` are rejected, unreachable arms are missed, and a tuple pattern inside `.some(..)` panics the checker",
+                 sample=f"{f['name']}: {q.show(x['recv'])} instantiated with the column's type arguments")
+    r.count("declared field types used as column types", n, 3, EXH)
+    # the generator: a declared field type that decides whether the field occupies a slot is read under the instance's type arguments
+    titems = ctx.file_items(TB)
+    m = 0
+    for f, _ in q.iter_items(titems or []):
+        if f["k"] != "Fn" or f.get("body") is None:
+            continue
+        for x in q.walk(f["body"]):
+            if x["k"] == "MethodCall" and x["m"] == "to_solved_type" and x["recv"]["k"] == "Field" and x["recv"]["f"] == "ty":
+                m += 1
+                handles_poly = any(mm["k"] == "Match" and any(y is x for y in q.walk(mm["e"])) and any(q.last_seg(h) == "Poly" for a in mm["arms"] for h in q.pat_heads(a["pat"])) for mm in q.walk(f["body"]))
+                r.ob(handles_poly, f"translate_bytecode.rs:{f['name']}:{q.show(x['recv'])}:declared-type-not-instantiated", TB, x["l"],
+                     f"{f['name']}: `{q.show(x)[:60]}` is the field's declared type; whether the field occupies a slot depends on the instance (`Pair<void, int>`): a type parameter must be replaced by the instance's argument before it is compared with void, or field indices are off by one and GetField indexes past the end of the struct",
+                     sample=f"{f['name']}: {q.show(x['recv'])} read under the instance's type arguments")
+    r.count("declared field types read by the generator", m, 1, TB)
+
+
+@rule("REPORT-BOTH", ["C13"], "the missing-cases report and the redundant-arms report are independent: once the matrix has been analysed, nothing returns before the useful flags have been read")
+def report_both(ctx, r):
+    items = ctx.file_items(EXH)
+    if items is None:
+        r.missing(EXH)
+        return
+    n = 0
+    for f, _ in q.iter_items(items):
+        if f["k"] != "Fn" or f.get("body") is None:
+            continue
+        stmts = f["body"]["stmts"]
+        red = [i for i, s_ in enumerate(stmts) if any(x["k"] in ("Path", "Struct") and "Error::RedundantArms" in str(x.get("p")) for x in q.walk(s_))]
+        comp = [i for i, s_ in enumerate(stmts) if any(x["k"] == "Call" and q.show(x["f"]).endswith("compute_exhaustiveness_and_usefulness") for x in q.walk(s_))]
+        if not red or not comp:
+            continue
+        n += 1
+        between = stmts[comp[0] + 1:red[-1]]
+        exits = [x for s_ in between for x in q.walk(s_) if x["k"] == "Return" or (x["k"] == "Macro" and x.get("name") in ("panic", "unreachable", "todo"))]
+        r.ob(not exits, f"pat_exhaustiveness.rs:{f['name']}:redundancy-report-skipped", EXH, exits[0]["l"] if exits else f["l"],
+             f"{f['name']} leaves (line {exits[0]['l'] if exits else '?'}) after the matrix was analysed but before the useful flags are read: a match that is both non-exhaustive and has an unreachable arm gets only the first report, so an unreachable arm goes unreported",
+             sample=f"{f['name']}: no exit between the analysis and the redundant-arms report")
+        reads = any(x["k"] == "Field" and x["f"] == "useful" for s_ in stmts[comp[0] + 1:red[-1] + 1] for x in q.walk(s_))
+        r.ob(reads, f"pat_exhaustiveness.rs:{f['name']}:useful-flags-not-read", EXH, f["l"], f"{f['name']} reports redundant arms without reading the rows' useful flags", sample=f"{f['name']}: redundant arms = rows with useful == false")
+    r.count("functions reporting both diagnostics", n, 1, EXH)
+
+
+@rule("MONO-VOID", ["C14", "C01", "C02"], "whether a value occupies a stack slot is decided from the type of the instance being compiled (get_ty(mono, ..)), never from the generic solution of the node")
+def mono_void(ctx, r):
+    items = ctx.file_items(TB)
+    if items is None:
+        r.missing(TB)
+        return
+    n = 0
+    for f, _ in q.iter_items(items):
+        if f["k"] != "Fn" or f.get("body") is None or f["name"] == "get_ty":
+            continue
+        lets = {}
+        for x in q.walk(f["body"]):
+            if x["k"] == "Local" and x.get("init") is not None:
+                for b in q.pat_bindings(x["pat"]):
+                    lets.setdefault(b, []).append(x["init"])
+        for x in q.walk(f["body"]):
+            if not (x["k"] == "Binary" and x["op"] in ("==", "!=") and any(q.show(s_).lstrip("&*") == "SolvedType::Void" for s_ in (x["a"], x["b"]))):
+                continue
+            other = x["b"] if q.show(x["a"]).lstrip("&*") == "SolvedType::Void" else x["a"]
+            n += 1
+            srcs = [other] + [i for v in q.idents_in(other) for i in lets.get(v, [])]
+            generic = [s_ for s_ in srcs if any(y["k"] == "MethodCall" and y["m"] == "solution_of_node" for y in q.walk(s_))]
+            r.ob(not generic, f"translate_bytecode.rs:{f['name']}:{q.show(other)[:40]}:void-test-on-generic-type", TB, x["l"],
+                 f"{f['name']}: `{q.show(x)[:70]}` tests a type obtained with solution_of_node, i.e. the generic solution with the function's type parameters still in it; inside an instance compiled for T = void the answer is wrong and a pop is emitted for a value that was never pushed (or the reverse). Use get_ty(mono, ..)",
+                 sample=f"{f['name']}: void test on an instance type")
+    r.count("void tests in the generator", n, 30, TB)
